@@ -50,7 +50,7 @@ def r1_publish(cx):
     # value stored derives from read_to_end results only
     o = b.origins(stores[0][2]["rv"].get("op") or {})
     calls = [callee_str(b.term(x[1])) for x in o if x[0] == "call"]
-    okv = any(x == ("call", ri) for x in o) and all(re.search(r"read_to_end$|Try>::branch$|Take|by_ref|take$|cmp::min|DerefMut|deref", c) for c in calls)
+    okv = any(x == ("call", ri) for x in o) and all(re.search(r"read_to_end$|Try>::branch$|Take|by_ref|take$|cmp::min|Ord>::min$|DerefMut|deref", c) for c in calls)
     cx.ob("R1", "R1/published-length-provenance", okv, f, "the published length accumulates read_to_end's return values only (calls on its derivation: %s)" % sorted(set(c.split("::")[-1] for c in calls)))
     # loop condition: uncompressed < total_size
     cx.ob("R1", "R1/loop-until-total", any(s["k"] == "assign" and s["rv"]["k"] == "bin" and s["rv"]["op"] == "Lt" and ("field", "total_size") in b.origins(s["rv"]["b"]) for blk in b.blocks for s in blk["s"]), f,
@@ -67,7 +67,7 @@ def r2_no_realloc(cx):
     b = F.body(f)
     rd = b.calls(r"Read>::read_to_end$")
     tk = b.calls(r"Read>::take$")
-    mn = b.calls(r"cmp::min::<usize>$")
+    mn = b.calls(r"cmp::min::<usize>$", r"<usize as std::cmp::Ord>::min$")
     ok = len(rd) == 1 and len(tk) == 1 and len(mn) == 1
     if ok:
         ok = any(x == ("call", tk[0][0]) for x in b.origins(rd[0][1]["args"][0])) and any(x == ("call", mn[0][0]) for x in b.origins(tk[0][1]["args"][1]))
@@ -96,80 +96,88 @@ def r2_no_realloc(cx):
     cx.ob("R2", "R2/capacity-equals-total", ok, g, "the shared Vec is allocated with_capacity(size) and the writer view is from_raw_parts(ptr, 0, size); total_size = size on both hands")
 
 
-def r3_readers_below_published(cx):
-    F = cx.F
-    f = F.one(impl_self="compression::SyncVecRd", item="slice", closure=False)
-    b = F.body(f)
-    fr = b.calls(r"slice::from_raw_parts::<")
-    cs = b.calls(r"SyncVecRd::current_size$")
-    ok = len(fr) == 1 and len(cs) == 1
-    if ok:
-        o = b.origins(fr[0][1]["args"][1])
-        ok = {x for x in o if x[0] == "call"} == {("call", cs[0][0])} and not any(x[0] == "const" for x in o) and ("field", "buffer") in b.origins(fr[0][1]["args"][0])
-    cx.ob("R3", "R3/slice-length-is-published-length", ok, f, "SyncVecRd::slice = from_raw_parts(buffer, current_size()) and nothing else")
-    g = F.one(impl_self="compression::SyncVecRd", item="current_size", closure=False)
-    gb = F.body(g)
-    lk = gb.calls(r"Mutex::<usize>::lock$")
-    cx.ob("R3", "R3/current-size-under-lock", len(lk) == 1 and gb.derives_from_call(0, r"MutexGuard<.*> as .*Deref>::deref$|Mutex::<usize>::lock$"), g, "current_size reads the length through the MutexGuard")
-    # every slicing of decoded_slice() is dominated by decode_to(bound)
-    for m in ("read", "read_exact", "get_slice"):
-        h = F.one(impl_self="compression::SeekableDecoder", item=m, trait="Source", closure=False)
-        hb = F.body(h)
-        dt = hb.calls(r"SeekableDecoder::decode_to$")
-        ds = hb.calls(r"SeekableDecoder::decoded_slice$")
-        ok = len(dt) == 1 and len(ds) >= 1 and all(hb.dominates(dt[0][0], i) for i, _ in ds)
-        # the bound given to decode_to covers the slicing bound: same provenance roots (offset/buf/region params)
-        if ok:
-            idx = hb.calls(r"SliceIndex<.*>>::index$|Index<.*Range.*>>::index$|core::slice::index::<impl .*Index<")
-            do = {x for x in hb.origins(dt[0][1]["args"][1]) if x[0] == "param"}
-            for i, t in idx:
-                if not any(hb.derives_from_call(t["args"][0], r"decoded_slice$") for _ in [0]):
-                    continue
-                io = {x for x in hb.origins(t["args"][1]) if x[0] == "param"}
-                if not io <= do | {("param", 1)}:
-                    ok = False
-        cx.ob("R3", "R3/decode-before-slice@%s" % m, ok, h, "SeekableDecoder::%s calls decode_to(end) before touching decoded_slice(), with the bound derived from the same arguments" % m)
-
-
-def r3c_decode_to_waits(cx):
-    """a reader waits until the bytes it asked for are published: a `wait_while(published < end)`, not a single wait
-    (the worker notifies after every chunk)"""
-    F = cx.F
-    k = F.one(impl_self="compression::SeekableDecoder", item="decode_to", closure=False)
-    # decode_to blocks on the condition variable of the published length until `published >= end`; the helpers of
-    # compression.rs between decode_to and Condvar::wait_while are transparent (inlined view)
-    kb = F.deep_body(k, only=r"bases::io::compression::")
-    ww = kb.calls(r"Condvar::wait_while::<")
-    on_decoded = [t for _, t in ww if ("field", "decoded") in kb.origins(t["args"][1]) | kb.origins(t["args"][0])]
-    cx.ob("R3", "R3/decode_to-waits", len(on_decoded) >= 1 and len(on_decoded) == len(ww), k, "decode_to blocks in Condvar::wait_while on the published length (SyncVec.decoded)")
-    okc = bool(on_decoded)
-    for t in on_decoded:
+def _wait_sites(F, hb):
+    """(wait_while calls on the published length, [is the predicate `published < bound` with bound from a parameter of the method])"""
+    ww = [(i, t) for i, t in hb.calls(r"Condvar::wait_while::<") if ("field", "decoded") in hb.origins(t["args"][1]) | hb.origins(t["args"][0])]
+    preds = []
+    for i, t in ww:
         cfs = set()
-        for l in [op_base_local(t["args"][2])]:
-            stack, seen = [l], set()
-            while stack:
-                x = stack.pop()
-                if x in seen or x is None:
-                    continue
-                seen.add(x)
-                for d in kb.defs().get(x, []):
-                    if d[0] == "stmt" and d[3]["k"] == "assign":
-                        rv = d[3]["rv"]
-                        if rv["k"] == "agg" and "closure_fn" in rv:
-                            cfs.add((rv["closure_fn"], d[1], d[2]))
-                        elif rv["k"] in ("use", "cast"):
-                            stack.append(op_base_local(rv["op"]))
+        stack, seen = [op_base_local(t["args"][2])], set()
+        while stack:
+            x = stack.pop()
+            if x in seen or x is None:
+                continue
+            seen.add(x)
+            for d in hb.defs().get(x, []):
+                if d[0] == "stmt" and d[3]["k"] == "assign":
+                    rv = d[3]["rv"]
+                    if rv["k"] == "agg" and "closure_fn" in rv:
+                        cfs.add((rv["closure_fn"], d[1], d[2]))
+                    elif rv["k"] in ("use", "cast"):
+                        stack.append(op_base_local(rv["op"]))
         ok1 = False
         for cf, bb, j in cfs:
             c = F.fns[cf]
             lt = "blocks" in c and any(st["k"] == "assign" and st["rv"]["k"] == "bin" and st["rv"]["op"] == "Lt" for blk in c["blocks"] for st in blk["s"])
-            agg = kb.blocks[bb]["s"][j]["rv"]
             cap = set()
-            for fo in agg["fields"]:
-                cap |= kb.origins(fo)
-            ok1 = ok1 or (lt and ("param", 2) in cap)
-        okc = okc and ok1
-    cx.ob("R3", "R3/wait-predicate", okc, k, "the wait predicate is `published < end` with `end` the bound decode_to received")
+            for fo in hb.blocks[bb]["s"][j]["rv"]["fields"]:
+                cap |= hb.origins(fo)
+            ok1 = ok1 or (lt and any(x[0] == "param" and x[1] >= 2 for x in cap))
+        preds.append(ok1)
+    return ww, preds
+
+
+def r3_readers_below_published(cx):
+    """each read method of the decoder, seen with the helpers of compression.rs inlined (decode_to, decoded_slice, slice,
+    current_size, wait_while, ... under whatever names): it waits on the published length, builds the shared slice with
+    the length read under the lock, and only then indexes it, within the bound it waited for"""
+    F = cx.F
+    all_len_ok, n_slices = True, 0
+    for m in ("read", "read_exact", "get_slice"):
+        h = F.one(impl_self="compression::SeekableDecoder", item=m, trait="Source", closure=False)
+        hb = F.deep_body(h, only=r"bases::io::compression::")
+        ww, preds = _wait_sites(F, hb)
+        fr = hb.calls(r"slice::from_raw_parts::<")
+        ok = len(ww) >= 1 and len(fr) >= 1 and all(hb.set_dominates({i for i, _ in ww}, j) for j, _ in fr)
+        for j, t in fr:
+            n_slices += 1
+            o = hb.origins(t["args"][1])
+            guard = any(x[0] == "call" and call_is(hb.term(x[1]), r"Mutex::<usize>::lock$", r"Condvar::wait_while::<", r"MutexGuard<.*usize> as .*Deref>::deref$") for x in o)
+            other_calls = [callee_str(hb.term(x[1])).split("::")[-1] for x in o if x[0] == "call" and not call_is(hb.term(x[1]),
+                           r"Mutex::<usize>::lock$", r"Condvar::wait_while::<", r"Deref>::deref$", r"DerefMut>::deref_mut$", r"Result::<.*Guard.*>::unwrap$", r"LockResult|PoisonError")]
+            if not guard or other_calls or any(x[0] == "const" and isinstance(x[1], int) for x in hb.origins(t["args"][1], through_calls=False)) \
+                    or ("field", "buffer") not in hb.origins(t["args"][0]):
+                all_len_ok = False
+        # the bound waited for covers the slicing bound: same provenance roots (offset / buf / region parameters)
+        if ok:
+            idx = hb.calls(r"SliceIndex<.*>>::index$|Index<.*Range.*>>::index$|core::slice::index::<impl .*Index<")
+            do = set()
+            for i, t in ww:
+                for x in hb.origins(t["args"][2]):
+                    if x[0] == "param":
+                        do.add(x)
+            for i, t in idx:
+                if not any(("call", j) in hb.origins(t["args"][0]) for j, _ in fr):
+                    continue
+                io = {x for x in hb.origins(t["args"][1]) if x[0] == "param"}
+                if not io <= do | {("param", 1)}:
+                    ok = False
+        cx.ob("R3", "R3/decode-before-slice@%s" % m, ok, h, "SeekableDecoder::%s waits for the published length to reach its bound before it builds and indexes the shared slice, the index bound coming from the same arguments" % m)
+        cx.ob("R3", "R3/decode_to-waits@%s" % m, len(ww) >= 1 and not [1 for i, t in hb.calls(r"Condvar::wait(::<.*>)?$")], h,
+              "SeekableDecoder::%s blocks in Condvar::wait_while on the published length (not a single wait: the worker notifies after every chunk)" % m)
+        cx.ob("R3", "R3/wait-predicate@%s" % m, bool(preds) and all(preds), h, "the wait predicate is `published < end` with `end` derived from the arguments of %s" % m)
+    cx.ob("R3", "R3/slice-length-is-published-length", all_len_ok and n_slices >= 3, "(SeekableDecoder::read / read_exact / get_slice)",
+          "the shared slice is from_raw_parts(buffer, length read through the MutexGuard of the published length) and nothing else")
+
+
+def r3c_decode_to_waits(cx):
+    """kept as an alias of the per-method clauses of R3 (historical keys)"""
+    F = cx.F
+    h = F.one(impl_self="compression::SeekableDecoder", item="read", trait="Source", closure=False)
+    hb = F.deep_body(h, only=r"bases::io::compression::")
+    ww, preds = _wait_sites(F, hb)
+    cx.ob("R3", "R3/decode_to-waits", len(ww) >= 1 and not hb.calls(r"Condvar::wait(::<.*>)?$"), h, "the decoder's readers block in Condvar::wait_while on the published length (SyncVec.decoded)")
+    cx.ob("R3", "R3/wait-predicate", bool(preds) and all(preds), h, "the wait predicate is `published < end`")
 
 
 LOCK_CALLS = (r"std::sync::Mutex::<.*>::lock$", r"std::sync::RwLock::<.*>::read$", r"std::sync::RwLock::<.*>::write$", r"Condvar::wait_while::<")
@@ -389,7 +397,7 @@ r6_witness.only_configs = ("lib-all3",)
 RULES = [
     ("R1", r1_publish, 6),
     ("R2", r2_no_realloc, 3),
-    ("R3", r3_readers_below_published, 5),
+    ("R3", r3_readers_below_published, 8),
     ("R3", r3c_decode_to_waits, 2),
     ("R4", r4_lock_order, 5),
     ("R5", r5_unsafe_inventory, 4),
